@@ -232,6 +232,7 @@ type docSpec struct {
 	trailWS     bool
 	wsBeforeEnd bool
 	signerRef   string
+	dups        []dupKey // further top-level keys that are case variants of reserved keys (casekeys.go)
 }
 
 // generate returns the unsigned JSON text J and the features it exhibits.
@@ -268,6 +269,10 @@ func (g *docGen) generate(sp docSpec) (string, []string) {
 		top.keys[i], top.keys[j] = top.keys[j], top.keys[i]
 		top.vals[i], top.vals[j] = top.vals[j], top.vals[i]
 	})
+	if len(sp.dups) > 0 {
+		insertDups(top, sp.dups, g.rng)
+		feats = append(feats, "case-variant-keys")
+	}
 	switch top.keys[len(top.keys)-1] {
 	case "camliSigner":
 		feats = append(feats, "signer-last")
